@@ -9,7 +9,7 @@ theorems here are about the part that is logic rather than arithmetic:
 * the import-format layer (`parse` = `impl TryFrom<&str> for Password`): for every well-formed format
   record, parsing what the producing system writes gives back exactly the record (`parse_render_*`),
   with the length / cost guards as the *only* refusals (the `if … then .error …` sides), and malformed
-  strings are refused (`parse_no_prefix`, `parse_unknown_tag`, `parse_unclosed_brace`,
+  strings are refused (`parse_no_prefix`, `parse_unlisted_tag`, `parse_unclosed_brace`,
   `parse_pbkdf2_two_fields`, `parseU32_natDigits_iff`);
 * `ab64_to_b64_correct` (Lemmas): the `ab64_to_b64!` macro turns passlib's adapted base64 into the
   padded standard encoding of the same bytes;
@@ -23,6 +23,7 @@ storage tables are regenerated from libs/crypto/src/lib.rs on every run (`Genera
 -/
 namespace Kanidm.PwFormat
 open Kanidm.Gen.PwFormat
+set_option linter.unusedSimpArgs false
 
 theorem parse_braced (tag value : List Char) (hbr : '}' ∉ tag) :
     parse (renderBraced tag value) = parseTagged (lower tag) value := by
@@ -40,8 +41,9 @@ theorem pbkdf2_tags_routed : ∀ e ∈ pbkdf2Table, lookup e.1 tagTable = some .
 theorem parse_render_django (cost : Nat) (salt : List Char) (hash : Bytes)
     (hc : cost < 2 ^ 32) (hs : '$' ∉ salt) (hb : ∀ b ∈ hash, b < 256) :
     parse (renderDjango cost salt hash) =
-      if hash.length < pbkdf2MinNistKeyLen then .error .InvalidLength
-      else .ok { tag := .PBKDF2, cost := cost, salt := utf8 salt, hash := hash } := by
+      if hash.length < pbkdf2MinNistKeyLen then refused .InvalidLength
+      else stored { tag := .PBKDF2, cost := cost, salt := utf8 salt, hash := hash } := by
+  simp only [refused, stored]
   have h1 := natDigits_no_sep cost '$' (by decide)
   have h2 := b64Encode_no_dollar (a := .standard) (Or.inl rfl) (pad := true) hash hb
   have s0 : splitChar '$' (renderDjango cost salt hash) =
@@ -57,8 +59,9 @@ theorem parse_render_pbkdf2 (tag : List Char) (minLen : Nat) (k : KdfTag) (cost 
     (hbr : '}' ∉ tag) (hentry : lookup (lower tag) pbkdf2Table = some (minLen, k))
     (hc : cost < 2 ^ 32) (hsb : ∀ b ∈ salt, b < 256) (hb : ∀ b ∈ hash, b < 256) :
     parse (renderPbkdf2 tag cost salt hash) =
-      if hash.length < minLen then .error .InvalidKeyLength
-      else .ok { tag := k, cost := cost, salt := salt, hash := hash } := by
+      if hash.length < minLen then refused .InvalidKeyLength
+      else stored { tag := k, cost := cost, salt := salt, hash := hash } := by
+  simp only [refused, stored]
   have hroute := pbkdf2_tags_routed _ (lookup_mem hentry)
   simp only at hroute
   have h1 := natDigits_no_sep cost '$' (by decide)
@@ -76,7 +79,8 @@ theorem parse_render_pbkdf2 (tag : List Char) (minLen : Nat) (k : KdfTag) (cost 
 theorem parse_render_ds (tag : List Char) (n : Nat) (k : KdfTag) (hash : Bytes)
     (hbr : '}' ∉ tag) (hentry : lookup (lower tag) tagTable = some (.ds n k)) (hb : ∀ b ∈ hash, b < 256) :
     parse (renderDs tag hash []) =
-      if hash.length ≠ n then .error .InvalidSaltLength else .ok { tag := k, hash := hash } := by
+      if hash.length ≠ n then refused .InvalidSaltLength else stored { tag := k, hash := hash } := by
+  simp only [refused, stored]
   have hd : decodeStd (b64Encode .standard true hash) = some hash := b64Decode_b64Encode_pad (Or.inl rfl) false hash hb
   unfold renderDs
   rw [parse_braced _ _ hbr]
@@ -86,7 +90,8 @@ theorem parse_render_dss (tag : List Char) (n : Nat) (strict : Bool) (k : KdfTag
     (hbr : '}' ∉ tag) (hentry : lookup (lower tag) tagTable = some (.dss n strict k))
     (hb : ∀ b ∈ hash, b < 256) (hsb : ∀ b ∈ salt, b < 256) (hlen : hash.length = n)
     (hsalt : strict = true → salt ≠ []) :
-    parse (renderDs tag hash salt) = .ok { tag := k, salt := salt, hash := hash } := by
+    parse (renderDs tag hash salt) = stored { tag := k, salt := salt, hash := hash } := by
+  simp only [refused, stored]
   have hall : ∀ b ∈ hash ++ salt, b < 256 := by
     intro b hm; rcases List.mem_append.mp hm with h | h
     · exact hb b h
@@ -108,11 +113,13 @@ theorem parse_render_dss (tag : List Char) (n : Nat) (strict : Bool) (k : KdfTag
   simp [← hlen]
 
 theorem parse_render_samba (upper : Bool) (hash : Bytes) (hb : ∀ b ∈ hash, b < 256) :
-    parse (renderSambaNt upper hash) = .ok { tag := .NT_MD4, hash := hash } := by
+    parse (renderSambaNt upper hash) = stored { tag := .NT_MD4, hash := hash } := by
+  simp only [refused, stored]
   simp [parse, renderSambaNt, firstPrefix, prefixTable, stripPrefix, parseSambaNt, hexDecode_hexEncode upper hash hb]
 
 theorem parse_render_ipa (pad : Bool) (hash : Bytes) (hb : ∀ b ∈ hash, b < 256) :
-    parse (renderIpaNtHash pad hash) = .ok { tag := .NT_MD4, hash := hash } := by
+    parse (renderIpaNtHash pad hash) = stored { tag := .NT_MD4, hash := hash } := by
+  simp only [refused, stored]
   have hp : firstPrefix prefixTable (renderIpaNtHash pad hash) = some (.parse_ipanthash, b64Encode .urlSafe pad hash) := by
     simp [renderIpaNtHash, firstPrefix, prefixTable, stripPrefix]
   simp only [parse, hp, parseIpaNtHash]
@@ -125,7 +132,8 @@ theorem parse_render_ipa (pad : Bool) (hash : Bytes) (hb : ∀ b ∈ hash, b < 2
 
 theorem parse_render_crypt_md5 (tag salt hash : List Char) (hbr : '}' ∉ tag)
     (htag : lower tag = ['c','r','y','p','t']) (hs : '$' ∉ salt) :
-    parse (renderCryptMd5 tag salt hash) = .ok { tag := .CRYPT_MD5, salt := utf8 salt, hash := utf8 hash } := by
+    parse (renderCryptMd5 tag salt hash) = stored { tag := .CRYPT_MD5, salt := utf8 salt, hash := utf8 hash } := by
+  simp only [refused, stored]
   unfold renderCryptMd5
   rw [parse_braced _ _ hbr, htag]
   have hl : lookup ['c','r','y','p','t'] tagTable = some .crypt := by decide
@@ -135,21 +143,25 @@ theorem parse_render_crypt_md5 (tag salt hash : List Char) (hbr : '}' ∉ tag)
 theorem parse_crypt_sha (tag rest : List Char) (id : Char) (k : KdfTag) (hbr : '}' ∉ tag)
     (htag : lower tag = ['c','r','y','p','t'])
     (hid : (id = '5' ∧ k = .CRYPT_SHA256) ∨ (id = '6' ∧ k = .CRYPT_SHA512)) :
-    parse (renderBraced tag ('$' :: id :: '$' :: rest)) = .ok { tag := k, text := '$' :: id :: '$' :: rest } := by
+    parse (renderBraced tag ('$' :: id :: '$' :: rest)) = stored { tag := k, text := '$' :: id :: '$' :: rest } := by
+  simp only [refused, stored]
   rw [parse_braced _ _ hbr, htag]
   have hl : lookup ['c','r','y','p','t'] tagTable = some .crypt := by decide
   rcases hid with ⟨rfl, rfl⟩ | ⟨rfl, rfl⟩ <;>
     simp [parseTagged, hl, parseCrypt, cryptPrefix, cryptTable, stripPrefix]
 theorem parse_no_prefix (v : List Char) (h : ∀ e ∈ prefixTable, stripPrefix e.1 v = none) :
-    parse v = .error .NoDecoderFound := by
+    parse v = refused .NoDecoderFound := by
+  simp only [refused, stored]
   simp only [parse, firstPrefix_none prefixTable v h]
 
-theorem parse_unknown_tag (tag value : List Char) (hbr : '}' ∉ tag) (h : lookup (lower tag) tagTable = none) :
-    parse (renderBraced tag value) = .error .NoDecoderFound := by
+theorem parse_unlisted_tag (tag value : List Char) (hbr : '}' ∉ tag) (h : lookup (lower tag) tagTable = none) :
+    parse (renderBraced tag value) = refused .NoDecoderFound := by
+  simp only [refused, stored]
   rw [parse_braced _ _ hbr]
   simp only [parseTagged, h]
 
-theorem parse_unclosed_brace (rest : List Char) (h : '}' ∉ rest) : parse ('{' :: rest) = .error .InvalidFormat := by
+theorem parse_unclosed_brace (rest : List Char) (h : '}' ∉ rest) : parse ('{' :: rest) = refused .InvalidFormat := by
+  simp only [refused, stored]
   have h' : '}' ∉ '{' :: rest := by
     intro hm; rcases List.mem_cons.mp hm with hm | hm
     · exact absurd hm (by decide)
@@ -158,7 +170,8 @@ theorem parse_unclosed_brace (rest : List Char) (h : '}' ∉ rest) : parse ('{' 
 
 theorem parse_pbkdf2_two_fields (tag a b : List Char) (hbr : '}' ∉ tag)
     (hroute : lookup (lower tag) tagTable = some .pbkdf2) (ha : '$' ∉ a) (hb : '$' ∉ b) :
-    parse (renderBraced tag (a ++ '$' :: b)) = .error .InvalidLength := by
+    parse (renderBraced tag (a ++ '$' :: b)) = refused .InvalidLength := by
+  simp only [refused, stored]
   rw [parse_braced _ _ hbr]
   simp only [parseTagged, hroute, parsePbkdf2, splitChar_field _ _ _ ha, splitChar_last _ _ hb]
 
@@ -231,53 +244,53 @@ theorem db_round_trip (t : KdfTag) : dbRoundTrip t = some t := by
 /-! ## non-vacuity: the hypotheses are satisfiable by concrete, non-trivial records -/
 
 example : parse (renderDjango 36000 ['x','I','E','o'] (List.replicate 32 7)) =
-    .ok { tag := .PBKDF2, cost := 36000, salt := utf8 ['x','I','E','o'], hash := List.replicate 32 7 } := by
+    stored { tag := .PBKDF2, cost := 36000, salt := utf8 ['x','I','E','o'], hash := List.replicate 32 7 } := by
   rw [parse_render_django 36000 ['x','I','E','o'] (List.replicate 32 7) (by decide) (by decide) (by decide)]
   simp [pbkdf2MinNistKeyLen]
 
-example : parse (renderDjango 1 [] (List.replicate 31 7)) = .error .InvalidLength := by
+example : parse (renderDjango 1 [] (List.replicate 31 7)) = refused .InvalidLength := by
   rw [parse_render_django 1 [] (List.replicate 31 7) (by decide) (by decide) (by decide)]
   simp [pbkdf2MinNistKeyLen]
 
 example : parse (renderPbkdf2 ['P','b','K','D','F','2','-','s','h','a','5','1','2'] 10000 [1, 2, 255] (List.replicate 64 200)) =
-    .ok { tag := .PBKDF2_SHA512, cost := 10000, salt := [1, 2, 255], hash := List.replicate 64 200 } := by
+    stored { tag := .PBKDF2_SHA512, cost := 10000, salt := [1, 2, 255], hash := List.replicate 64 200 } := by
   rw [parse_render_pbkdf2 ['P','b','K','D','F','2','-','s','h','a','5','1','2'] 32 .PBKDF2_SHA512 10000 [1, 2, 255]
     (List.replicate 64 200) (by decide) (by decide) (by decide) (by decide) (by decide)]
   simp
 
-example : parse (renderPbkdf2 ['P','B','K','D','F','2'] 1 [9] (List.replicate 18 3)) = .error .InvalidKeyLength := by
+example : parse (renderPbkdf2 ['P','B','K','D','F','2'] 1 [9] (List.replicate 18 3)) = refused .InvalidKeyLength := by
   rw [parse_render_pbkdf2 ['P','B','K','D','F','2'] 19 .PBKDF2_SHA1 1 [9] (List.replicate 18 3)
     (by decide) (by decide) (by decide) (by decide) (by decide)]
   simp
 
-example : parse (renderDs ['S','h','A'] (List.replicate 20 9) []) = .ok { tag := .SHA1, hash := List.replicate 20 9 } := by
+example : parse (renderDs ['S','h','A'] (List.replicate 20 9) []) = stored { tag := .SHA1, hash := List.replicate 20 9 } := by
   rw [parse_render_ds ['S','h','A'] 20 .SHA1 (List.replicate 20 9) (by decide) (by decide) (by decide)]
   simp
 
 example : parse (renderDs ['S','S','H','A','5','1','2'] (List.replicate 64 9) [1, 2, 3]) =
-    .ok { tag := .SSHA512, salt := [1, 2, 3], hash := List.replicate 64 9 } :=
+    stored { tag := .SSHA512, salt := [1, 2, 3], hash := List.replicate 64 9 } :=
   parse_render_dss ['S','S','H','A','5','1','2'] 64 true .SSHA512 (List.replicate 64 9) [1, 2, 3]
     (by decide) (by decide) (by decide) (by decide) (by decide) (by decide)
 
-example : parse (renderSambaNt true [0x88, 0x46, 0xF7, 0xEA]) = .ok { tag := .NT_MD4, hash := [0x88, 0x46, 0xF7, 0xEA] } :=
+example : parse (renderSambaNt true [0x88, 0x46, 0xF7, 0xEA]) = stored { tag := .NT_MD4, hash := [0x88, 0x46, 0xF7, 0xEA] } :=
   parse_render_samba true _ (by decide)
 
-example : parse (renderIpaNtHash true (List.replicate 16 251)) = .ok { tag := .NT_MD4, hash := List.replicate 16 251 } :=
+example : parse (renderIpaNtHash true (List.replicate 16 251)) = stored { tag := .NT_MD4, hash := List.replicate 16 251 } :=
   parse_render_ipa true _ (by decide)
 
 example : parse (renderCryptMd5 ['C','r','y','p','t'] ['z','a','R','I'] ['7','8','8','7']) =
-    .ok { tag := .CRYPT_MD5, salt := utf8 ['z','a','R','I'], hash := utf8 ['7','8','8','7'] } :=
+    stored { tag := .CRYPT_MD5, salt := utf8 ['z','a','R','I'], hash := utf8 ['7','8','8','7'] } :=
   parse_render_crypt_md5 _ _ _ (by decide) (by decide) (by decide)
 
 example : parse (renderBraced ['c','r','y','p','t'] ['$','6','$','r','o','u','n','d','s','=','1','$','a','$','b']) =
-    .ok { tag := .CRYPT_SHA512, text := ['$','6','$','r','o','u','n','d','s','=','1','$','a','$','b'] } :=
+    stored { tag := .CRYPT_SHA512, text := ['$','6','$','r','o','u','n','d','s','=','1','$','a','$','b'] } :=
   parse_crypt_sha _ _ '6' .CRYPT_SHA512 (by decide) (by decide) (Or.inr ⟨rfl, rfl⟩)
 
-example : parse ['p','a','s','s','w','o','r','d'] = .error .NoDecoderFound :=
+example : parse ['p','a','s','s','w','o','r','d'] = refused .NoDecoderFound :=
   parse_no_prefix _ (by decide)
 
-example : parse (renderBraced ['M','D','5'] ['x']) = .error .NoDecoderFound :=
-  parse_unknown_tag _ _ (by decide) (by decide)
+example : parse (renderBraced ['M','D','5'] ['x']) = refused .NoDecoderFound :=
+  parse_unlisted_tag _ _ (by decide) (by decide)
 
 /-- D15 in the model: a cleartext of 513 bytes whose SHA-1 reference accepts is refused. -/
 example : verify d15Prims { tag := .SHA1 } (List.replicate 513 0) = .ok false ∧
